@@ -58,6 +58,18 @@ CHECKS = {
    technique="bounded-exhaustive enumeration of topologies (every placement of <=2 rewriting devices x every subset of silent hops, paths <=5) with deviation-bounded exploration of each; statement-derived oracle on simulator ground truth",
    text="IPv4/UDP/Dublin x 3 port directions x sizes/patterns: every path with target distance 1..5, every <=2-subset of NAT devices, every subset of silent hops, target answering or silent, 2 rounds, all executions with <=2 (3 thorough) scheduling deviations; Hop::last_nat_status() in the snapshot taken at every publish equals the statement's rule evaluated on the checksums the simulator's hops actually quoted; every other cell NotApplicable.",
    note=ASSUME_SIM + "; NAT model: RFC 1624 incremental checksum adjustment, addresses restored in quotations", ref="3/C19"),
+ "C05": dict(cat="model_checking", engine="E3",
+   technique="explicit-state search over round histories on the real State (depth-bounded DFS, de-duplicated on all getter results); oracle = independent recomputation from the list of rounds, itself validated against the repository's scenario files",
+   text="54-shape round alphabet (2 hops x 7 outcomes + re-issue/short/long fillers; 3 hops in one configuration) x first_ttl{1,2,250} x max_samples{0,1,2,256}: all histories to depth 3 (4 thorough), oracle after every round over every getter (counts, loss, forward/backward loss, last/best/worst/avg, two-pass stddev, jitter/javg/jmax/jinta, addresses, last-probe fields, bounded newest-first samples) plus the listed inequalities; de Bruijn order-3 long histories (1500/5000 rounds); rounds produced by the real strategy over the simulated network.",
+   note="reference model in harness/vcore/src/refstate.rs (reproduces the 143 expected values of the 9 scenario files at start-up); synthetic rounds obey the strategy's contract (DESIGN.md 5.4)", ref="3/C05"),
+ "C10": dict(cat="model_checking", engine="E3 + E1/E2",
+   technique="explicit-state search over round histories with varying path length on the real State + deviation-bounded exploration of real executions; statement-derived oracle on the hop table",
+   text="14 round shapes (path length 1..4, silent/answering target, unknown hops, failed/re-issued probes) x first_ttl{1,2,5}: all histories to depth 4 (5 thorough); and 14 cells x 8 topologies x first_ttl{1,2,3} real executions with <=1 (2) deviations, snapshot at every publish: hops() empty iff no path length, consecutive TTLs from the lowest probed to the greatest path length, target hop at the latest length, true distance on undisturbed stable paths, queries never panic (empty state included).",
+   note="synthetic rounds obey the strategy's contract (DESIGN.md 5.4); " + ASSUME_SIM, ref="3/C10"),
+ "C15": dict(cat="model_checking", engine="E3",
+   technique="explicit-state search over ECMP round histories on the real State/FlowRegistry; invariants of the statement evaluated after every round by replay, statistics against the C05 reference",
+   text="19 round shapes (path length 1..3, per-hop address a1/a2/unknown, failed probes) x first_ttl{1,2} x max_flows{1,2,3,64}: all histories to depth 4 (5 thorough): dense ids, flows only gain information, attributed flow agrees with the round position by position (position = TTL - first probed TTL), <= max_flows, cap behaviour (matching rounds still attributed, nothing created), default flow = all rounds, every flow's round count and hop statistics = recomputation over exactly its rounds.",
+   note="synthetic rounds obey the strategy's contract (DESIGN.md 5.4); entries beyond the round's path length are not judged", ref="3/C15"),
 }
 
 NOT_YET = {
